@@ -36,24 +36,30 @@ func vpParseSectionStub(section []byte) (*BloomFilters, error) {
 //vp:bounds 2 blocks with unconstrained 64-bit filter offsets/sizes and region, accepted by planBlockFilterReads; file of arbitrary size (< 2^40) and content; any subsequence of blocks consulted in order; each section parses or is malformed
 func HS_C24_filter_cursor_reads_stay_inside_the_region() { vpCursorBody(2, 0) }
 
-// thorough tier: 3 blocks, split by whether the first block is consulted (two harnesses that run
-// in parallel; together they cover every subsequence)
+// thorough tier: 3 blocks, two fixed consultation patterns run as two parallel harnesses — all three
+// in order, and the first and third with the second skipped (a gap left by a prefilter). All eight
+// subsequences of three blocks (measured: 65 minutes on a loaded image, the solver answering
+// about one query per second) are not part of the registered bound; every subsequence of two
+// blocks is the quick harness.
 //
 //vp:override bs.getScanBuffer=vpGetScanBuffer
 //vp:override bs.putScanBuffer=vpPutScanBuffer
 //vp:override bs.parseFilterSection=vpParseSectionStub
 //vp:thorough
-//vp:bounds 3 blocks, first block consulted; otherwise as HS_C24_filter_cursor_reads_stay_inside_the_region
-func HS_C24_filter_cursor_three_blocks_first_consulted() { vpCursorBody(3, 1) }
+//vp:nocross
+//vp:bounds 3 blocks, all three consulted in order; otherwise as HS_C24_filter_cursor_reads_stay_inside_the_region
+func HS_C24_filter_cursor_three_blocks_all_consulted() { vpCursorBody(3, 1) }
 
 //vp:override bs.getScanBuffer=vpGetScanBuffer
 //vp:override bs.putScanBuffer=vpPutScanBuffer
 //vp:override bs.parseFilterSection=vpParseSectionStub
 //vp:thorough
-//vp:bounds 3 blocks, first block not consulted; otherwise as HS_C24_filter_cursor_reads_stay_inside_the_region
-func HS_C24_filter_cursor_three_blocks_first_skipped() { vpCursorBody(3, 2) }
+//vp:nocross
+//vp:bounds 3 blocks, the first and the third consulted, the second skipped; otherwise as HS_C24_filter_cursor_reads_stay_inside_the_region
+func HS_C24_filter_cursor_three_blocks_gap_skipped() { vpCursorBody(3, 2) }
 
-// first: 0 = the first block is consulted or not (symbolic), 1 = consulted, 2 = skipped
+// pattern: 0 = any subsequence (each block consulted or not, symbolic), 1 = every block consulted,
+// 2 = every block but the second consulted
 func vpCursorBody(n int, first int) {
 	f := vpNewSymFile()
 	blocks := make([]DataBlockMetadata, n)
@@ -71,9 +77,12 @@ func vpCursorBody(n int, first int) {
 	}
 	c := blockFilterCursor{file: f, blocks: blocks, regionStart: regionStart, regionEnd: regionEnd}
 	for i := range blocks {
-		consult := first == 1
-		if i > 0 || first == 0 {
+		consult := true
+		switch first {
+		case 0:
 			consult = nondetBool()
+		case 2:
+			consult = i != 1
 		}
 		if !consult {
 			continue
